@@ -107,7 +107,10 @@ def published(case):
     def corr(a, b):
         ma, mb = mean(a), mean(b)
         cv = sum((x - ma) * (y - mb) for x, y in zip(a, b))
-        return cv / (sum((x - ma) ** 2 for x in a) * sum((y - mb) ** 2 for y in b)).sqrt()
+        va, vb = sum((x - ma) ** 2 for x in a), sum((y - mb) ** 2 for y in b)
+        if a == b or (cv > 0 and cv * cv == va * vb):
+            return D(1)        # exactly proportional columns (a criterion with itself in particular)
+        return cv / (va * vb).sqrt()
     u = [sd[j] * sum(1 - corr(rk[j], rk[k]) for k in range(m)) for j in range(m)]
     if sum(u) == 0:
         return None
@@ -229,6 +232,11 @@ def replay(ctx, rep):
     if "error" in o1:
         return 1
     want = published(case)
+    if want is None:
+        nan = all(x != x for x in o1["after"]["weights"])
+        print("published     : 0/0 (every criterion perfectly correlated with every other)")
+        print("oracle        :", "VIOLATED - NaN weights (" + KF + ")" if nan else "formula undefined; nothing to compare")
+        return 1 if nan else 0
     print("published     :", [str(x)[:22] for x in want])
     bad = any(abs(D(a) - b) > D(conditioning(case)) * (1 + abs(b)) for a, b in zip(o1["after"]["weights"], want))
     w2 = dict(zip(o2["after"]["criteria"], o2["after"]["weights"]))
